@@ -31,6 +31,12 @@ WED_OPEN = 18269 * 1440 + 870
 PRICES = ["3", "7.75", "12.5", "40", "100"]     # (no penny prices: positions of 10^5 shares overflow TLC's integers)
 
 
+def _q(x):
+    """a reported quantity: an int when it is a whole number, else the exact fraction"""
+    f = Fraction(float(x))
+    return int(f) if f.denominator == 1 else f
+
+
 def rat(x):
     x = Fraction(x)
     return (x.numerator, x.denominator)
@@ -67,6 +73,9 @@ class Scenario(object):
         for a in ASSETS:
             if rng.random() < 0.5:
                 q = rng.choice([-1, 1]) * rng.randint(1, 30)
+                if sid % 5 == 4:
+                    # one scenario in five starts from holdings that are not whole units (bought as such through the broker)
+                    q = q + [0.5, -0.25, 0.75][(sid // 5 + ASSETS.index(a)) % 3]
                 self.broker.submit_order("pf", Order(start, a, q))
         self.broker.update(start)
         self.now = FRI_OPEN
@@ -132,13 +141,20 @@ class Scenario(object):
             if nkeys in (1, 2, 4) and rng.random() < 0.3:
                 self.opt, self.scale = "equal", rng.choice(["1", "1", "1/2", "2", "0"])
         pd_ = self.broker.get_portfolio_as_dict("pf")
-        held = dict((ASSETS.index(a) + 1, int(v["quantity"])) for a, v in pd_.items())
+        hq = dict((a, Fraction(float(v["quantity"]))) for a, v in pd_.items())
+        self.hden = 1
+        for q_ in hq.values():
+            self.hden = max(self.hden, q_.denominator)
+        if self.hden not in (1, 2, 4):
+            raise RuntimeError("holding that is not a multiple of a quarter unit: %s" % hq)
+        held = dict((ASSETS.index(a) + 1, int(q_ * self.hden)) for a, q_ in hq.items())
         eq = Fraction(float(self.broker.get_portfolio_total_equity("pf")))
         alpha = dict((ASSETS.index(a) + 1, v) for a, v in (self.alpha if self.alpha is not None else dict((a, 0) for a in self.uni)).items())
         return dict(held=held, uni=[ASSETS.index(a) + 1 for a in self.uni], alpha=alpha,
                     px=dict((i + 1, ((0, 0) if a in self.unquoted else rat(self.prices[a]))) for i, a in enumerate(ASSETS)),
                     kind=self.kind, eq=rat(eq), par=rat(Fraction(self.par)), fee=rat(Fraction(self.fee)),
-                    risk=self.risk, rset=[ASSETS.index(a) + 1 for a in self.rset], opt=self.opt, scale=rat(Fraction(self.scale)))
+                    risk=self.risk, rset=[ASSETS.index(a) + 1 for a in self.rset], opt=self.opt, scale=rat(Fraction(self.scale)),
+                    hden=self.hden)
 
     def rebalance(self, dt, next_open):
         """The real PCM call, execution and fills.  Returns what happened."""
@@ -200,10 +216,10 @@ class Scenario(object):
             self.exec_handler(ts(dt), orders)
             from .broker_rig import _pending
             res["pending_after_submit"] = len(_pending(self.broker.open_orders["pf"]))
-            res["holdings_before_fill"] = dict((a, int(v["quantity"])) for a, v in self.broker.get_portfolio_as_dict("pf").items())
+            res["holdings_before_fill"] = dict((a, _q(v["quantity"])) for a, v in self.broker.get_portfolio_as_dict("pf").items())
             self.broker.update(ts(next_open))
             self.now = next_open
-            res["holdings"] = dict((a, int(v["quantity"])) for a, v in self.broker.get_portfolio_as_dict("pf").items())
+            res["holdings"] = dict((a, _q(v["quantity"])) for a, v in self.broker.get_portfolio_as_dict("pf").items())
         res["universe_after"] = list(uni.get_assets(ts(self.now)))
         return res
 
@@ -211,11 +227,11 @@ class Scenario(object):
 def case_tla(c):
     fn = lambda d, f: ("(" + " @@ ".join("%d :> %s" % (k, f(v)) for k, v in sorted(d.items())) + ")") if d else "<<>>"
     return ('[held |-> %s, uni |-> {%s}, alpha |-> %s, px |-> %s, kind |-> "%s", eq |-> <<%d, %d>>, par |-> <<%d, %d>>, '
-            'fee |-> <<%d, %d>>, exact |-> TRUE, risk |-> "%s", rset |-> {%s}, opt |-> "%s", scale |-> <<%d, %d>>]' % (
+            'fee |-> <<%d, %d>>, exact |-> TRUE, risk |-> "%s", rset |-> {%s}, opt |-> "%s", scale |-> <<%d, %d>>, hden |-> %d]' % (
                 fn(c["held"], str), ", ".join(str(x) for x in c["uni"]), fn(c["alpha"], str),
                 fn(c["px"], lambda r: "<<%d, %d>>" % r), c["kind"], c["eq"][0], c["eq"][1], c["par"][0], c["par"][1],
                 c["fee"][0], c["fee"][1], c.get("risk", "none"), ", ".join(str(x) for x in c.get("rset", [])), c.get("opt", "fixed"),
-                c.get("scale", (1, 1))[0], c.get("scale", (1, 1))[1]))
+                c.get("scale", (1, 1))[0], c.get("scale", (1, 1))[1], c.get("hden", 1)))
 
 
 def tlc_eval(w, cases, rep, label):
@@ -268,8 +284,9 @@ def judge(sc, case, exp, res, dt):
     if res["err"]:
         out.append(("outcome", "PCM raised %s on a valid rebalance" % res["err"]))
         return out
-    exp_orders = [(sym(a), q) for a, q in orders]
-    got_orders = [(a, q) for a, q, _t in res["orders"]]
+    hden = case.get("hden", 1)
+    exp_orders = [(sym(a), _q(Fraction(q, hden))) for a, q in orders]          # the model states orders in 1/hden units
+    got_orders = [(a, _q(q)) for a, q, _t in res["orders"]]
     if got_orders != exp_orders:
         what = "orders"
         if sorted(got_orders) == sorted(exp_orders):
@@ -277,10 +294,10 @@ def judge(sc, case, exp, res, dt):
         elif any(q == 0 for _a, q in got_orders):
             what = "zero-order"
         out.append((what, "orders %s, expected %s (held %s, target %s)" % (
-            got_orders, exp_orders, dict((sym(a), q) for a, q in case["held"].items()), dict((sym(a), q) for a, q in target))))
+            got_orders, exp_orders, dict((sym(a), _q(Fraction(q, hden))) for a, q in case["held"].items()), dict((sym(a), q) for a, q in target))))
     if any(t != ts(dt) for _a, _q, t in res["orders"]):
         out.append(("order-time", "orders not stamped with the rebalance time"))
-    if res["pending_after_submit"] != len(res["orders"]) or res["holdings_before_fill"] != dict((sym(a), q) for a, q in case["held"].items()):
+    if res["pending_after_submit"] != len(res["orders"]) or res["holdings_before_fill"] != dict((sym(a), _q(Fraction(q, hden))) for a, q in case["held"].items()):
         out.append(("MODEL-closed-hours", "orders submitted at the close were not simply left pending"))
     exp_hold = dict((sym(a), q) for a, q in target if q != 0)
     if res["holdings"] != exp_hold:
